@@ -113,6 +113,16 @@ class FEval:
                     r, _ = sub.run(fields, sargs, max_steps=max_steps, callees=callees, share=True)
                     if r is not None:
                         vals[i.id] = r
+                elif op == "call" and i.callee and i.callee.startswith("llvm.bswap."):
+                    nb = _bits(i.ty) // 8
+                    vals[i.id] = int.from_bytes(_mask(val(i.a[0]), _bits(i.ty)).to_bytes(nb, "little"), "big")
+                elif op == "call" and i.callee and i.callee in P.functions and getattr(P.functions[i.callee], "blocks", None) and \
+                        all(not isinstance(val(a), tuple) for a in i.a):
+                    # a pure helper that is handed integers only (static inline arithmetic): evaluated in place
+                    g = P.functions[i.callee]
+                    r, _ = FEval(P, g, None, ptr_param=None).run({}, {k: val(a) for k, a in enumerate(i.a)}, max_steps=max_steps)
+                    if r is not None:
+                        vals[i.id] = r
                 elif op == "load" and isinstance(val(i.a[0]), tuple) and val(i.a[0])[0] == "arr":
                     pa = val(i.a[0])
                     data = arrays[pa[1]]
@@ -155,6 +165,10 @@ class FEval:
                     r = {"and": x & y, "or": x | y, "xor": x ^ y, "add": x + y, "sub": x - y, "mul": x * y,
                          "shl": x << (y % bits), "lshr": x >> (y % bits)}[op]
                     vals[i.id] = _mask(r, bits)
+                elif op == "ashr":
+                    x, y = val(i.a[0]), val(i.a[1])
+                    bits = _bits(i.ty)
+                    vals[i.id] = _mask(_signed(x, bits) >> (y % bits), bits)
                 elif op == "icmp":
                     x, y = val(i.a[0]), val(i.a[1])
                     bits = _bits(self.optype.get(i.a[0]) if isinstance(i.a[0], int) else "i%d" % i.a[0][2])
